@@ -6,7 +6,8 @@
 
 package plugin
 
-//@ define START_EFFECTS heap, launches, kills, rf_calls, launched, cancelled, wg_count, hdata, open_files, sc_checks, sel_reached, conns_open
+//@ define LOG emits, last_level, last_msg, last_args
+//@ define START_EFFECTS heap, launches, kills, rf_calls, launched, cancelled, wg_count, hdata, open_files, sc_checks, sel_reached, conns_open, rd_done, $LOG
 //@ define CLIENT_EFFECTS $START_EFFECTS, yopens
 //@ ghost launched: map[Int]Int
 //@ ghost sc_checks: Int
@@ -36,7 +37,7 @@ package plugin
 //@ func (*SecureConfig).Check
 //@   nopanic [C13.total]
 //@   nonblocking
-//@   modifies hdata, open_files
+//@   modifies hdata, open_files, rd_done
 //@   ensures len(s.Checksum) == 0 ==> result0 == false && result1 == ErrSecureConfigNoChecksum   [C13.err]
 //@   ensures len(s.Checksum) != 0 && s.Hash == nil ==> result0 == false && result1 == ErrSecureConfigNoHash   [C13.err]
 //@   ensures result1 != nil ==> result0 == false   [C13.err]
@@ -174,7 +175,7 @@ package plugin
 //@   nopanic [C03.d]
 //@   nonblocking
 //@   requires c != nil && c.config != nil && c.address != nil && c.logger != nil && held(c.l)
-//@   modifies c.grpcMuxer, fields(c.grpcMuxerOnce), conns_open
+//@   modifies c.grpcMuxer, fields(c.grpcMuxerOnce), conns_open, $LOG
 //@   ensures result1 != nil ==> result0 == nil
 //@   ensures result1 == nil ==> result0 != nil
 
@@ -221,7 +222,7 @@ package plugin
 //@   requires held(c.l) && valid_client(c) && c.config.Reattach != nil && valid_reattach(c) && c.address == nil
 //@   requires c.config.Reattach.ReattachFunc == nil ==> c.config.Reattach.Addr != nil
 //@   modifies c.doneCtx, c.ctxCancel, c.address, c.protocol, c.negotiatedVersion, c.runner, wg_count, conns_open
-//@   after call dynamic#1 bind attached: Iface := ret0
+//@   after call var:reattachFunc#1 bind attached: Iface := ret0
 //@   ensures held(c.l)
 //@   ensures result1 != nil ==> result0 == nil && c.address == nil && c.runner == old(c.runner)   [C15.rt]
 //@   ensures result1 == nil ==> result0 == c.config.Reattach.Addr && c.address == result0   [C15.rt]
@@ -354,3 +355,102 @@ package plugin
 //@   ensures !(exists x :: Sv(x)) ==> result0 == pv0 && result2 == P0 && result1 == "netrpc"   [C02.none]
 //@   ensures (exists x :: Sv(x)) ==> result2 == ite(P0 != nil && result0 == pv0, P0, V0[result0])   [C02.set]
 //@   ensures opts.GRPCServer == nil ==> result1 == "netrpc"   [C02.proto]
+
+//@ func flattenKVPairs
+//@   nopanic [C10.total]
+//@   nonblocking
+//@   requires forall j :: 0 <= j && j < len(kvs) ==> kvs[j] != nil
+//@   modifies nothing
+//@   loop#1 invariant cap(result) == 0 || fresh(result)
+//@   loop#1 frame fresh_only
+//@   loop#1 invariant len(result) == 2 * (rangeindex + 1) && rangeindex + 1 <= len(kvs)
+//@   loop#1 invariant forall j :: 0 <= j && j <= rangeindex ==> result[2 * j] == iface(kvs[j].Key) && result[2 * j + 1] == kvs[j].Value
+//@   ensures len(result) == 2 * len(kvs)   [C10.kv]
+//@   ensures forall j :: 0 <= j && j < len(kvs) ==> result[2 * j] == iface(kvs[j].Key) && result[2 * j + 1] == kvs[j].Value   [C10.kv]
+
+//@ func parseJSON
+//@   nopanic [C10.total]
+//@   nonblocking
+//@   modifies nothing
+//@   loop#1 invariant 0 <= rpos1 && rpos1 <= rn1 && len(entry.KVPairs) == rpos1 && entry != nil && fresh(entry)
+//@   loop#1 invariant cap(entry.KVPairs) == 0 || fresh(entry.KVPairs)
+//@   loop#1 invariant forall j :: 0 <= j && j < rpos1 ==> entry.KVPairs[j] != nil && fresh(entry.KVPairs[j]) && allocated(entry.KVPairs[j]) && entry.KVPairs[j].Key == rkeys1[j] && entry.KVPairs[j].Value == rvals1[rkeys1[j]]
+//@   loop#1 frame fresh_only
+//@   ensures result1 == nil ==> result0 != nil && fresh(result0)   [C10.kv]
+//@   ensures result1 != nil ==> result0 == nil   [C10.kv]
+//@   ensures result1 == nil ==> len(result0.KVPairs) == rn1 && (forall j :: 0 <= j && j < rn1 ==> result0.KVPairs[j] != nil && result0.KVPairs[j].Key == rkeys1[j] && result0.KVPairs[j].Value == rvals1[rkeys1[j]])   [C10.kv] [internal]
+//@   ensures result1 == nil ==> (forall j :: 0 <= j && j < len(result0.KVPairs) ==> result0.KVPairs[j] != nil)   [C10.kv]
+
+//@ pred text_level(s, inpanic) := ite(has_prefix(s, "[TRACE]"), 1, ite(has_prefix(s, "[DEBUG]"), 2, ite(has_prefix(s, "[INFO]"), 3, ite(has_prefix(s, "[WARN]"), 4, ite(has_prefix(s, "[ERROR]"), 5, ite(has_prefix(s, "panic:"), 5, ite(inpanic, 5, 2)))))))
+//@ pred is_hclog_level(n) := n >= 1 && n <= 5
+
+//@ func (*Client).logStderr
+//@   nopanic [C10.total]
+//@   requires valid_client(c) && r != nil
+//@   modifies heap, wg_count, fwd, $LOG, rd_done, it_done, it0, e0, cont0, panic0
+//@   local it_done: Bool := false
+//@   local it0: Int := 0
+//@   local e0: Int := 0
+//@   local cont0: Bool := false
+//@   local panic0: Bool := false
+//@   after call (hclog.Logger).Named#1 bind lg: Iface := ret
+//@   after call bufio.NewReaderSize#1 bind rdr: Ref := ret
+//@   at call (*bufio.Reader).ReadLine#1 set it0 := fwd[c.config.Stderr]
+//@   at call (*bufio.Reader).ReadLine#1 set e0 := emits[lg]
+//@   at call (*bufio.Reader).ReadLine#1 set cont0 := continuation
+//@   at call (*bufio.Reader).ReadLine#1 set panic0 := panic
+//@   after call (*bufio.Reader).ReadLine#1 set it_done := true
+//@   after call (*bufio.Reader).ReadLine#1 bind ln: Str := str(ret0)
+//@   after call (*bufio.Reader).ReadLine#1 bind pfx: Bool := ret1
+//@   after call parseJSON#1 bind pe: Ref := ret0
+//@   after call parseJSON#1 bind perr: Iface := ret1
+//@   after call parseJSON#1 bind pmsg: Str := ite(ret1 == nil, ret0.Message, "")
+//@   after call parseJSON#1 bind plvl: Str := ite(ret1 == nil, ret0.Level, "")
+//@   loop#1 invariant lg != nil && rdr != nil && rdr_src(rdr) == r
+//@   loop#1 invariant it_done ==> fwd[c.config.Stderr] == bcat(bcat(it0, ln), ite(pfx, "", "\n"))   [C10.copy]
+//@   loop#1 invariant it_done ==> continuation == pfx   [C10.cont]
+//@   loop#1 invariant it_done ==> emits[lg] == e0 + 1   [C10.level]
+//@   loop#1 invariant it_done && (pfx || cont0) ==> last_level[lg] == 2 && last_msg[lg] == ln   [C10.level]
+//@   loop#1 invariant it_done && !(pfx || cont0) && perr != nil ==> last_level[lg] == text_level(ln, panic0) && last_msg[lg] == ln   [C10.level]
+//@   loop#1 invariant it_done && !(pfx || cont0) && perr == nil && is_hclog_level(lvl(plvl)) ==> last_level[lg] == lvl(plvl) && last_msg[lg] == pmsg   [C10.level]
+//@   loop#1 invariant it_done && !(pfx || cont0) && perr == nil && !is_hclog_level(lvl(plvl)) ==> last_level[lg] == 2 && last_msg[lg] == ln   [C10.level]
+//@   loop#1 invariant it_done && !(pfx || cont0) && perr != nil ==> panic == ite(has_prefix(ln, "[TRACE]") || has_prefix(ln, "[DEBUG]") || has_prefix(ln, "[INFO]") || has_prefix(ln, "[WARN]") || has_prefix(ln, "[ERROR]"), false, ite(has_prefix(ln, "panic:"), true, panic0))   [C10.panic]
+//@   ensures rd_done[r]   [C10.eof]
+//@   ensures wg_count[c.clientWaitGroup] == old(wg_count)[c.clientWaitGroup] - 1 && wg_count[c.pipesWaitGroup] == old(wg_count)[c.pipesWaitGroup] - 1   [C10.eof]
+
+//@ func (*Client).Start$2
+//@   nopanic [C03.d]
+//@   requires c != nil && c.logger != nil && runner != nil && c.ctxCancel != nil
+//@   requires !held(c.l)   [nospawn]
+//@   modifies heap, wg_count, waited, cancelled, $LOG
+//@   ensures c.exited   [C03.a]
+//@   ensures cancelled[ctx_cancel(c.ctxCancel)]   [C03.a]
+//@   ensures wg_count[c.clientWaitGroup] == old(wg_count)[c.clientWaitGroup] - 1   [C03.a]
+//@   ensures !held(c.l)   [C03.a]
+//@   at call (runner.Runner).Wait#1 assert waited[c.pipesWaitGroup]   [C10.order]
+
+//@ func (*Client).reattach$1
+//@   nopanic [C03.d]
+//@   requires c != nil && c.logger != nil && r != nil && c.ctxCancel != nil
+//@   requires !held(c.l)   [nospawn]
+//@   modifies heap, wg_count, cancelled, $LOG
+//@   ensures c.exited   [C03.a] [C15.watch]
+//@   ensures cancelled[ctx_cancel(c.ctxCancel)]   [C03.a] [C15.watch]
+//@   ensures wg_count[c.clientWaitGroup] == old(wg_count)[c.clientWaitGroup] - 1   [C03.a]
+//@   ensures !held(c.l)   [C03.a]
+
+//@ func (*Client).Start$3
+//@   nopanic [C10.total] [C03.d]
+//@   close_once [C20.close1]
+//@   requires c != nil && c.logger != nil && runner != nil && linesCh != nil && !closed(linesCh)
+//@   modifies heap, wg_count, scan_err, rd_done, hdata, $LOG
+//@   after call (runner.Runner).Stdout#1 bind so: Iface := ret
+//@   ensures rd_done[so]   [C10.drain]
+//@   ensures closed(linesCh)   [C10.drain]
+//@   ensures wg_count[c.clientWaitGroup] == old(wg_count)[c.clientWaitGroup] - 1 && wg_count[c.pipesWaitGroup] == old(wg_count)[c.pipesWaitGroup] - 1   [C10.drain]
+
+//@ func (*Client).Start$4$1
+//@   nopanic [C10.total]
+//@   requires c != nil && linesCh != nil
+//@   modifies wg_count
+//@   ensures wg_count[c.clientWaitGroup] == old(wg_count)[c.clientWaitGroup] - 1   [C10.recv]
